@@ -433,14 +433,44 @@ def _mk_kernel(rng, loops, out, opranks, n=None, small=None):
     case = {"prop": PROP, "kind": "kernel", "loops": loops, "out": out, "declared": rng.random() < 0.7,
             "n": n, "z": z, "ops": ops, "traces": _trace_choice(rng, loops), "pfx": rng.choice(PFX)}
     case["hist"] = _hist(rng, case["pfx"])
-    # a format-"U" leaf rank, where the family allows it
-    if rng.random() < 0.1:
+    # operand shapes: declared exactly, declared larger than needed, or only estimated by the library
+    for o in ops:
+        o["shape"] = rng.choice(["exact", "exact", "larger", "estimated"])
+    case["zshape"] = rng.choice(["exact", "larger"])
+    # a format-"U" leaf rank, where the family allows it (its extent: declared, or the estimate = the largest
+    # coordinate stored anywhere in that rank + 1)
+    if rng.random() < 0.12:
         for o in ops:
             v = o["ranks"][-1]
             if v not in out and sum(1 for o2 in ops if v in o2["ranks"]) == 1 and len(o["ranks"]) >= 1:
-                o["ushape"] = n
+                o["ushape"] = _extent(o, n)
                 break
+    # how the innermost statement is spelled, and how the objects are (re)used
+    case["body"] = rng.choice(["iadd", "iadd", "rmul", "add_assign", "radd_assign", "imul"])
+    u = rng.random()
+    if u < 0.08:
+        case["repeat"] = 2
+    elif u < 0.16:
+        case["pre"] = 1
+    elif u < 0.3:
+        case["inside"] = 1
     return case
+
+
+def _leaf_coords(t, depth):
+    if depth == 1:
+        return [c for c, _ in t]
+    return [c for _, s in t for c in _leaf_coords(s, depth - 1)]
+
+
+def _extent(o, n):
+    mode = o.get("shape", "exact")
+    if mode == "exact":
+        return n
+    if mode == "larger":
+        return n + 3
+    cs = _leaf_coords(o["t"], len(o["ranks"]))
+    return (max(cs) + 1) if cs else 0
 
 
 def gen_kernel(rng, tier):
@@ -456,7 +486,13 @@ def gen_kernel(rng, tier):
                 c["z"] = ([] if out else 0) if k % 3 else ([[0, 1]] if out else 1)
                 c["declared"] = bool(k % 2)
                 c["hist"] = [] if k % 5 else c["hist"]
-                c.pop("ushape", None)
+                for key in ("repeat", "pre", "inside"):
+                    c.pop(key, None)
+                for o in c["ops"]:
+                    o.pop("ushape", None)
+                c["body"] = ["iadd", "rmul", "add_assign", "radd_assign", "imul"][k % 5]
+                if k % 7 == 0:
+                    c["repeat"] = 2
                 yield c
     reps = 30 if tier == "quick" else 1200
     for loops, out, opr in CLASSIC:
@@ -488,14 +524,31 @@ def _flat(vals, n):
     return list(reversed(out))
 
 
-def _kernel(loops, out, z, ops, bodies):
+def _leaf_stmt(body, zc, vals):
+    """z_ref += a * b * ... in its different spellings (different Payload operators, same value)"""
+    P = H.ft().Payload
+    if body == "imul":
+        t = P(vals[0].value)
+        for v in vals[1:]:
+            t *= v
+        zc += t
+        return
+    prod = vals[0].value if body == "rmul" else vals[0]
+    for v in vals[1:]:
+        prod = prod * v                     # plain * Payload -> __rmul__, Payload * Payload -> __mul__
+    if body == "add_assign":
+        zc <<= zc + prod                    # __add__, __ilshift__
+    elif body == "radd_assign":
+        zc <<= P.get(prod) + zc             # plain + Payload -> __radd__, __ilshift__
+    else:
+        zc += prod
+
+
+def _kernel(loops, out, z, ops, bodies, body="iadd"):
     """the HiFiber loop nest: z_v << (a_v & b_v ...) on output ranks, a_v & b_v ... on reduced ones"""
     def level(i, zr, zc, ops):
         if i == len(loops):
-            prod = ops[0][1]
-            for o in ops[1:]:
-                prod = prod * o[1]
-            zc += prod
+            _leaf_stmt(body, zc, [o[1] for o in ops])
             return
         v = loops[i]
         parts = [k for k, o in enumerate(ops) if o[0] and o[0][0] == v]
@@ -522,28 +575,50 @@ def _kernel(loops, out, z, ops, bodies):
     level(0, out, z, ops)
 
 
-def _build(case):
-    ft = H.ft()
-    n = case["n"]
-    ops = []
-    for o in case["ops"]:
-        rk = o["ranks"]
-        t = ft.Tensor.fromFiber(rank_ids=list(rk), fiber=H.build_fiber(o["t"], len(rk), 0), shape=[n] * len(rk))
-        if o.get("ushape") is not None:
-            t.setFormat(rk[-1], "U")
-        ops.append([list(rk), t.getRoot()])
-    out = case["out"]
-    shape = [n] * len(out) if case["declared"] else None
-    if not out:
-        z = ft.Tensor(rank_ids=[])
-        if case["z"]:
-            root = z.getRoot()
-            root <<= case["z"]
-    elif case["z"]:
-        z = ft.Tensor.fromFiber(rank_ids=list(out), fiber=H.build_fiber(case["z"], len(out), 0), shape=shape)
-    else:
-        z = ft.Tensor(rank_ids=list(out), shape=shape) if shape else ft.Tensor(rank_ids=list(out))
-    return z, ops
+def _shape_of(mode, n, d):
+    return None if mode == "estimated" else [n + (3 if mode == "larger" else 0)] * d
+
+
+class _KernelRunner:
+    """the model-backed loop nests"""
+
+    @staticmethod
+    def build_ops(case):
+        ft = H.ft()
+        n = case["n"]
+        ops = []
+        for o in case["ops"]:
+            rk = o["ranks"]
+            kw = {}
+            sh = _shape_of(o.get("shape", "exact"), n, len(rk))
+            if sh is not None:
+                kw["shape"] = sh
+            t = ft.Tensor.fromFiber(rank_ids=list(rk), fiber=H.build_fiber(o["t"], len(rk), 0), **kw)
+            if o.get("ushape") is not None:
+                t.setFormat(rk[-1], "U")
+            ops.append([list(rk), t.getRoot()])
+        return ops
+
+    @staticmethod
+    def new_z(case, pre=False):
+        ft = H.ft()
+        n, out = case["n"], case["out"]
+        declared = True if pre else case["declared"]
+        shape = _shape_of(case.get("zshape", "exact"), n, len(out)) if declared else None
+        tree = None if pre else case["z"]
+        if not out:
+            z = ft.Tensor(rank_ids=[])
+            if tree:
+                z.getRoot().value = tree        # no Payload operator: nothing to count
+        elif tree:
+            z = ft.Tensor.fromFiber(rank_ids=list(out), fiber=H.build_fiber(tree, len(out), 0), shape=shape)
+        else:
+            z = ft.Tensor(rank_ids=list(out), shape=shape) if shape else ft.Tensor(rank_ids=list(out))
+        return z
+
+    @staticmethod
+    def execute(case, ops, z, bodies):
+        _kernel(case["loops"], case["out"], z.getRoot(), ops, bodies, case.get("body", "iadd"))
 
 
 class _Wrap:
@@ -596,77 +671,113 @@ def _numiters(path):
     return C.numIters(path)
 
 
-def _collect_run(case, d):
-    """beginCollect(prefix); trace(...); kernel; endCollect -- returns the observation"""
+def _err_info(e):
+    import traceback
+    tb = traceback.extract_tb(e.__traceback__)
+    line = (tb[-1].line or "") if tb else ""
+    return type(e).__name__, f"{type(e).__name__}: {line.strip()}"[:160]
+
+
+def _session(case, R, d, collect, with_pre):
+    """one measured run of the kernel; collect=True: inside beginCollect(prefix) ... endCollect()"""
     M = H.ft().Metrics
-    z, ops = _build(case)
-    bodies, obs = {}, {}
-    pfx = os.path.join(d, case["pfx"])
-    M.beginCollect(pfx)
-    for r, t in case["traces"]:
-        M.trace(r, type_=t)
-    with _Wrap() as w:
+    obs, bodies = {}, {}
+    pfx = os.path.join(d, case["pfx"]) if d else None
+    inside = bool(case.get("inside")) and not case.get("pre")
+    ops = None if inside else R.build_ops(case)
+
+    def open_():
+        if collect:
+            M.beginCollect(pfx)
+            for r, t in case["traces"]:
+                M.trace(r, type_=t)
+
+    if with_pre and case.get("pre"):        # an earlier session of the same kernel on the same operand objects
+        open_()
         try:
-            _kernel(case["loops"], case["out"], z.getRoot(), ops, bodies)
-            obs["on"] = H.snapshot(z.getRoot())
-        except Exception as e:  # an abort with collection on is an observation
-            obs["on"] = {"err": type(e).__name__}
-    try:
-        M.endCollect()
-    except Exception as e:
-        obs["end_err"] = type(e).__name__
-    dump = M.dump() or {}
-    comp = dump.get("Compute", {})
-    obs["dump"] = {"mul": comp.get("payload_mul", 0), "add": comp.get("payload_add", 0),
-                   "update": comp.get("payload_update", 0)}
-    obs["lines"] = sorted(dump.keys())
+            R.execute(case, ops, R.new_z(case, pre=True), {})
+        except Exception as e:
+            obs["pre_err"] = type(e).__name__
+        if collect:
+            try:
+                M.endCollect()
+            except Exception as e:
+                obs["pre_err"] = type(e).__name__
+    open_()
+    if inside:
+        ops = R.build_ops(case)              # operands (and the output) built inside the bracket
+    z = R.new_z(case)
+    w = _Wrap()
+    with w:
+        try:
+            for _ in range(case.get("repeat", 1)):
+                R.execute(case, ops, z, bodies)
+            obs["res"] = H.snapshot(z.getRoot())
+        except Exception as e:  # an abort is an observation
+            name, line = _err_info(e)
+            obs["res"] = {"err": name}
+            obs["err_line"] = line
+    if collect:
+        try:
+            M.endCollect()
+        except Exception as e:
+            obs["end_err"] = type(e).__name__
+        dump = M.dump() or {}
+        comp = dump.get("Compute", {})
+        obs["dump"] = {"mul": comp.get("payload_mul", 0), "add": comp.get("payload_add", 0),
+                       "update": comp.get("payload_update", 0)}
+        obs["lines"] = sorted(dump.keys())
+        obs["iters"] = {}
+        obs["files"] = []
+        for r, t in case["traces"]:
+            path = f"{pfx}-{r}-{t}.csv"
+            rows = _read_file(path) if os.path.exists(path) else None
+            obs["files"].append([r, t, rows])
+            if t == "iter":
+                obs["iters"][r] = _numiters(path) if os.path.exists(path) else -1
     obs["wrap"] = dict(w.n)
     obs["bodies"] = bodies
-    obs["iters"] = {}
-    obs["files"] = []
-    for r, t in case["traces"]:
-        path = f"{pfx}-{r}-{t}.csv"
-        rows = _read_file(path) if os.path.exists(path) else None
-        obs["files"].append([r, t, rows])
-        if t == "iter":
-            obs["iters"][r] = _numiters(path) if os.path.exists(path) else -1
     return obs
 
 
-def run_kernel(case):
+def _run_measured(case, R):
     M = H.ft().Metrics
     side = {}
     _reset(M)
-    # collection off
-    z, ops = _build(case)
-    try:
-        _kernel(case["loops"], case["out"], z.getRoot(), ops, {})
-        off = H.snapshot(z.getRoot())
-    except Exception as e:
-        off = {"err": type(e).__name__}
+    off = _session(case, R, None, False, True)
     side["metrics_untouched_when_off"] = M.metrics is None and M.collecting is False and M.traces == {}
     d = _scratch()
     try:
         _rets, herr, _snap = _run_ops(M, case["hist"], d)
-        obs = _collect_run(case, d)
-        obs["hist_err"] = herr
+        on = _session(case, R, d, True, True)
     finally:
         shutil.rmtree(d, ignore_errors=True)
     _reset(M)
     d2 = _scratch()
     try:
-        fresh = _collect_run(case, d2)
+        fresh = _session(case, R, d2, True, False)
     finally:
         shutil.rmtree(d2, ignore_errors=True)
     _reset(M)
-    obs["off"] = off
-    obs["fresh"] = {"dump": fresh["dump"], "files": fresh["files"], "on": fresh["on"]}
-    if "end_err" in obs:
-        side["endCollect_ok:" + obs["end_err"]] = False
-    side["only_Compute_line"] = obs["lines"] in ([], ["Compute"])
+    obs = {"off": off["res"], "on": on["res"], "dump": on["dump"], "wrap": on["wrap"], "bodies": on["bodies"],
+           "iters": on["iters"], "files": on["files"], "lines": on["lines"], "hist_err": herr,
+           "err_line": on.get("err_line", ""),
+           "fresh": {"dump": fresh["dump"], "files": fresh["files"], "on": fresh["res"]}}
+    for o, nm in ((on, "on"), (off, "off")):
+        if "pre_err" in o:
+            side[f"earlier_session_of_the_kernel_ok({nm}):" + o["pre_err"]] = False
+    if "end_err" in on:
+        side["endCollect_ok:" + on["end_err"]] = False
+    side["only_Compute_line"] = on["lines"] in ([], ["Compute"])
+    side["same_operators_off_and_on"] = off["wrap"] == on["wrap"] or "err" in str(on["res"])[:8] or "err" in str(off["res"])[:8]
+    side["same_loop_bodies_off_and_on"] = off["bodies"] == on["bodies"] or "err" in str(on["res"])[:8] or "err" in str(off["res"])[:8]
     case["impl"] = obs
     case["side"] = side
     return case
+
+
+def run_kernel(case):
+    return _run_measured(case, _KernelRunner)
 
 
 def run_api(case):
